@@ -473,6 +473,15 @@ async fn run_spec(spec: &Spec) -> Out {
 					}
 					Err(_) => bad!("handler-register-stuck/any", "{method}"),
 				}
+				// whether the registration was new or refused, the handler that owns the name gets the next notification
+				if let Some(h) = w.method_handles[*k].as_mut() {
+					let n = out.ops as u64;
+					w.srv.push_text(json!({"jsonrpc": "2.0", "method": method, "params": [n]}).to_string());
+					match tokio::time::timeout(Duration::from_secs(30), h.next()).await {
+						Ok(Some(Ok(v))) if v == json!([n]) => {}
+						other => bad!(if already { "handler-lost-its-notifications/after-refused-registration" } else { "handler-lost-its-notifications/after-registration" }, "{method}: the registered handler's stream gave {other:?} for the notification {n}"),
+					}
+				}
 			}
 			Step::UnregisterHandler(k) => {
 				if let Some(h) = w.method_handles[*k].take() {
@@ -1021,6 +1030,81 @@ async fn abandoned_while_queued_case(seed: u64, cycles: usize) -> (Vec<(String, 
 	(violations, abandoned)
 }
 
+/// The answer and the caller's deadline become ready together: the read task has the server's answer in hand (for a
+/// subscribe call: has recorded the subscription as live) when the wall-clock request timeout has also passed, and
+/// only then is the caller polled. Whichever of the two the caller reports, nothing may stay behind: a subscription the
+/// caller never got a handle for is unsubscribed by the client itself, and the tables are empty once that is acknowledged.
+async fn answer_at_deadline_case(seed: u64) -> (Vec<(String, String)>, &'static str, bool) {
+	let mut violations = Vec::new();
+	let mut r = Rng::new(seed);
+	let (client, mut srv) = jrv::clientsim::client(ClientCfg { string_ids: r.bool(), build_path: r.below(4) as u8, request_timeout: Duration::from_millis(60), ..Default::default() });
+	let kind = *r.pick(&["subscribe", "subscribe", "call", "batch"]);
+	let c = client.clone();
+	let op = tokio::spawn(async move {
+		match kind {
+			"call" => c.request::<Value, _>("call", rpc_params![1]).await.map(|_| None).map_err(|e| err_kind(&e)),
+			"batch" => {
+				let mut b = BatchRequestBuilder::new();
+				b.insert("call", rpc_params![1]).unwrap();
+				b.insert("call", rpc_params![2]).unwrap();
+				let r: Result<BatchResponse<Value>, _> = c.batch_request(b).await;
+				r.map(|_| None).map_err(|e| err_kind(&e))
+			}
+			_ => c.subscribe::<Value, _>("sub", rpc_params![1], "unsub").await.map(Some).map_err(|e| err_kind(&e)),
+		}
+	});
+	settle().await;
+	let mut answered = false;
+	for m in srv.drain_out() {
+		if let ClientOut::Msg { text, .. } = m {
+			// the answer is taken off the wire at once, and handed over only after the deadline has passed
+			*srv.ctl.block_thread_once.lock().unwrap() = Some(Duration::from_millis(150));
+			match parse_wire(&text) {
+				WireMsg::Single(q) => {
+					if let Some(id) = &q.id {
+						answered = srv.push_text(ok_response(id, if q.method == "sub" { json!(format!("dl-{seed:x}")) } else { json!("fine") }));
+					}
+				}
+				WireMsg::Batch(reqs) => {
+					let parts: Vec<String> = reqs.iter().map(|q| ok_response(q.id.as_ref().unwrap_or(&Value::Null), json!(1))).collect();
+					answered = srv.push_text(array_of(&parts));
+				}
+				_ => {}
+			}
+		}
+	}
+	let got = tokio::time::timeout(Duration::from_secs(30), op).await;
+	let reported_ok = matches!(got, Ok(Ok(Ok(_))));
+	match got {
+		Ok(Ok(Ok(handle))) => drop(handle),
+		Ok(Ok(Err(ErrKind::Timeout))) => {}
+		other => violations.push((format!("operation-failed/answer-and-deadline-ready-together/{kind}"), format!("{other:?}"))),
+	}
+	// the server acknowledges every unsubscribe call it sees
+	let mut unsubscribed = false;
+	for _ in 0..8 {
+		settle().await;
+		for m in srv.drain_out() {
+			if let ClientOut::Msg { text, .. } = m {
+				if let WireMsg::Single(q) = parse_wire(&text) {
+					if let Some(id) = &q.id {
+						unsubscribed |= q.method == "unsub";
+						srv.push_text(ok_response(id, json!(true)));
+					}
+				}
+			}
+		}
+	}
+	let sizes = client.verif_table_sizes();
+	if answered && sizes != [0, 0, 0, 0] {
+		violations.push((
+			format!("tables-not-empty-when-idle/answer-and-deadline-ready-together/{kind}"),
+			format!("the {kind} was answered, the answer reached the client together with the caller's deadline, the caller was told {}; unsubscribe seen: {unsubscribed}; every message of the client has been answered, the tables hold {sizes:?} (requests, subscriptions, batches, handlers)", if reported_ok { "Ok" } else { "RequestTimeout" }),
+		));
+	}
+	(violations, kind, reported_ok)
+}
+
 /// Which kind of cycle the history contained (for signatures): the last subscription-ending step kinds seen.
 fn leak_feature(steps: &[Step]) -> String {
 	let mut f: Vec<&str> = Vec::new();
@@ -1280,6 +1364,24 @@ fn main() {
 			}
 			for (sig, d) in v {
 				violations.push(Violation::new(sig, d, json!({"scenario": "operations abandoned while queued behind a slow send", "seed": s, "cycles": cycles, "class": "abandoned-while-queued"})));
+			}
+		}
+	}
+	if !replay || replay_class.as_deref() == Some("answer-at-deadline") {
+		let seeds: Vec<u64> = match (&replay_seed, replay) {
+			(Some(s), true) => vec![*s],
+			_ => (0..ctx.tier.pick(64u64, 2_000)).map(|i| Rng::fork(ctx.seed, 92_000_000 + i).next_u64()).collect(),
+		};
+		let res = run_parallel(seeds, |_, s| (s, block_on_virtual(answer_at_deadline_case(s))));
+		for (s, (v, kind, reported_ok)) in res {
+			ev.eval();
+			ev.count("cases_answer_and_deadline_ready_together", 1);
+			ev.count(&format!("answer_at_deadline_{kind}_caller_told_{}", if reported_ok { "ok" } else { "timeout" }), 1);
+			if v.is_empty() {
+				ev.nontrivial(&("answer-at-deadline", s));
+			}
+			for (sig, d) in v {
+				violations.push(Violation::new(sig, d, json!({"scenario": "the answer and the caller's deadline become ready together", "seed": s, "class": "answer-at-deadline"})));
 			}
 		}
 	}
